@@ -30,16 +30,22 @@ FAMILY = {
                                                  "W_NoHeldWrite", "W_NoLostToCut"]),
     },
     "C10": {
-        "mc": {"quick": ["StreamSrv_mc_c10_q1.cfg", "StreamSrv_mc_c10_q2.cfg", "StreamSrv_mc_c10_q3.cfg"],
+        "mc": {"quick": ["StreamSrv_mc_c10_q1.cfg", "StreamSrv_mc_c10_q2.cfg", "StreamSrv_mc_c10_q3.cfg", "StreamSrv_mc_c10_q4.cfg"],
                "thorough": ["StreamSrv_mc_c10_t1.cfg", "StreamSrv_mc_c10_t2.cfg", "StreamSrv_mc_c10_t3.cfg",
-                            "StreamSrv_mc_c10_q1.cfg", "StreamSrv_mc_c10_q3.cfg"]},
+                            "StreamSrv_mc_c10_q1.cfg", "StreamSrv_mc_c10_q3.cfg", "StreamSrv_mc_c10_q4.cfg",
+                            "StreamSrv_mc_c10_q5.cfg"]},
         "cover": {"quick": [("StreamSrv_cover_c10_q.cfg", False, False, False, {"s1": True, "s2": False}),
-                            ("StreamSrv_cover_c10_qj.cfg", False, True, False, {"s1": True})],
+                            ("StreamSrv_cover_c10_qj.cfg", False, True, False, {"s1": True}),
+                            ("StreamSrv_cover_c10_qd.cfg", True, False, False, {"s1": True}),
+                            ("StreamSrv_cover_c10_qb.cfg", False, False, False, {"s1": True, "s2": False})],
                   "thorough": [("StreamSrv_cover_c10_t.cfg", True, False, False, {"s1": True}),
+                               ("StreamSrv_cover_c10_qd.cfg", True, False, False, {"s1": True}),
+                               ("StreamSrv_cover_c10_qb.cfg", False, False, False, {"s1": True, "s2": False}),
                                ("StreamSrv_cover_c10_q.cfg", False, False, False, {"s1": True, "s2": False}),
                                ("StreamSrv_cover_c10_qj.cfg", False, True, False, {"s1": True})]},
         "gen": "StreamSrv_gen_c10.cfg",
         "witness": ("StreamSrv_mc_c10_q2.cfg", ["W_NoJsonBody", "W_NoStandaloneNested"]),
+        "witness2": [("StreamSrv_mc_c10_q4.cfg", ["W_NoDupRefused", "W_NoHeldPost"]), ("StreamSrv_mc_c10_q5.cfg", ["W_NoBroadcastSeen"])],
     },
 }
 
@@ -59,6 +65,14 @@ CORNERS = {
          "post|s1|r1 emit|s1|r1 cut|p.s1.r1 emit|s1|r1 ret|s1|r1 get|g1|s1|r1|0 get|g2|s1|r1|1"),
         ("standalone-detached-writes", (True, False, False), {"s1": True},
          "sa|s1 sa|s1 get|g1|s1|sa|none sa|s1 cut|g1 sa|s1 sa|s1 get|g2|s1|sa|1 sa|s1 cut|g2 get|g3|s1|sa|4"),
+        ("write-during-replay-window", (True, False, False), {"s1": False},
+         "post|s1|r1 emit|s1|r1 cut|p.s1.r1 emit|s1|r1 emit|s1|r1 gateW|g1 get|g1|s1|r1|0 emit|s1|r1 open emit|s1|r1 ret|s1|r1"),
+        ("write-during-replay-window-standalone", (True, False, False), {"s1": True},
+         "sa|s1 sa|s1 gateW|g1 get|g1|s1|sa|none sa|s1 open sa|s1 cut|g1 sa|s1 gateW|g2 get|g2|s1|sa|1 sa|s1 open"),
+        ("two-cuts-write-while-detached", (True, False, False), {"s1": True},
+         "post|s1|r1 emit|s1|r1 cut|p.s1.r1 emit|s1|r1 get|g1|s1|r1|1 emit|s1|r1 cut|g1 emit|s1|r1 get|g2|s1|r1|3 ret|s1|r1"),
+        ("failed-replay-of-finished-stream", (True, False, False), {"s1": True},
+         "post|s1|r1 emit|s1|r1 cut|p.s1.r1 emit|s1|r1 ret|s1|r1 gateW|g1 get|g1|s1|r1|0 cut|g1 open get|g2|s1|r1|0 get|g3|s1|r1|2"),
         ("held-response-vs-resume", (True, False, False), {"s1": True},
          "post|s1|r1 emit|s1|r1 cut|p.s1.r1 gateA|s1|r1 ret|s1|r1 get|g1|s1|r1|0 open get|g2|s1|r1|1"),
         ("conflict-then-resume", (True, False, False), {"s1": False},
@@ -67,6 +81,16 @@ CORNERS = {
          "post|s1|r1 post|s2|r1 emit|s1|r1 emit|s2|r1 cut|p.s1.r1 cut|p.s2.r1 emit|s2|r1 emit|s1|r1 get|g1|s2|r1|0 get|g2|s1|r1|1 ret|s1|r1 ret|s2|r1"),
     ],
     "C10": [
+        ("same-id-posts-raced-at-open", (True, False, False), {"s1": True},
+         "post|s1|r1 emit|s1|r1 ret|s1|r1 gateO|p.s1.r2 post|s1|r2 post|s1|d2 emit|s1|d2 open emit|s1|d2 ret|s1|d2 emit|s1|r2 ret|s1|r2"),
+        ("same-id-posts-raced-at-open-noprime", (True, False, False), {"s1": False},
+         "gateO|p.s1.d1 post|s1|d1 post|s1|r1 emit|s1|r1 open emit|s1|r1 ret|s1|r1 post|s1|d1"),
+        ("same-id-sequential-duplicate", (False, False, False), {"s1": True, "s2": False},
+         "post|s1|r1 post|s1|d1 post|s2|d1 emit|s1|r1 emit|s2|d1 ret|s1|r1 post|s2|r1 ret|s2|d1"),
+        ("broadcast-from-handler-same-id-elsewhere", (False, False, False), {"s1": True, "s2": False, "s3": False},
+         "get|g1|s2|sa|none get|g2|s1|sa|none post|s1|r1 post|s2|r1 post|s3|r1 upd|s1|r1 emit|s2|r1 upd|s2|r1 ret|s2|r1 upd|s1|r1 ret|s1|r1 ret|s3|r1"),
+        ("broadcast-store-json", (True, True, False), {"s1": True, "s2": True},
+         "get|g1|s2|sa|none post|s1|r2 post|s2|r2 upd|s1|r2 cut|g1 upd|s2|r2 get|g2|s2|sa|0 ret|s1|r2 ret|s2|r2"),
         ("same-id-two-sessions-sse", (False, False, False), {"s1": True, "s2": False},
          "post|s1|r1 post|s2|r1 emit|s2|r1 emit|s1|r1 sreq|s1|r1 ans|s1|r1 ret|s2|r1 emit|s1|r1 ret|s1|r1"),
         ("same-id-three-sessions-json", (False, True, False), {"s1": True, "s2": False, "s3": False},
@@ -109,7 +133,9 @@ def label_steps(name, a):
     """Environment steps of one seam-level action label of StreamSrvMC (SDK actions give none)."""
     gate = lambda g, key: ([["gateA"] + key] if g else [])
     if name == "SPost":
-        return [["post", a[0], a[1]]]
+        return ([["gateO", "p.%s.%s" % (a[0], a[1])]] if a[2] else []) + [["post", a[0], a[1]]]
+    if name == "SBcast":
+        return [["upd", a[0], a[1]]]
     if name in ("SEmit", "SSreq", "SRet"):
         op = {"SEmit": "emit", "SSreq": "sreq", "SRet": "ret"}[name]
         return gate(a[2], [a[0], a[1]]) + [[op, a[0], a[1]]]
@@ -341,7 +367,7 @@ def signature(pid, clause, trows, upto, e):
                 continue
             op = r.get("op")
             involved = sess in (r.get("a1"), r.get("a2")) or (op == "cut" and ("." + sess + ".") in (r.get("a1") or "")) \
-                or op in ("open", "cut", "gateA", "gateF")
+                or op in ("open", "cut", "gateA", "gateF", "gateW", "gateO")
             if not involved:
                 continue
             ops.append(op)
@@ -444,7 +470,7 @@ def coverage(v, traces):
         distinct.add(key)
         ops = {s[0] for s in steps}
         nsess = len({s[1] for s in steps if s[0] == "post"})
-        if ops & {"cut", "get", "gateA", "gateF", "del", "delf"} or nsess > 1:
+        if ops & {"cut", "get", "gateA", "gateF", "gateW", "gateO", "upd", "del", "delf"} or nsess > 1:
             nontrivial += 1
     v.cov["evaluations"] = evals
     v.cov["traces_validated_against_impl"] = len(traces)
@@ -497,7 +523,17 @@ def family_run(pid, tier, seed, replay):
                                   extra_files={"wit.cfg": cfgtxt + "\nINVARIANT %s\n" % wit})
                 if r2.violation != wit:
                     raise vlib.MachineryError("vacuity: witness %s not reachable in %s (%s)" % (wit, base, r2.error or r2.violation))
-            v.cov["vacuity_witnesses_reached"] = len(wits)
+            nw = len(wits)
+            for base2, wits2 in fam.get("witness2", []):
+                cfgtxt = re.sub(r"(?m)^INVARIANTS.*$", "", open(os.path.join(vlib.SPEC, base2)).read())
+                for wit in wits2:
+                    wd = vlib.scratch("tlc-")
+                    r2 = vlib.run_tlc("StreamSrvMC", "wit.cfg", workdir=wd, workers=4, timeout=600, heap_gb=6,
+                                      extra_files={"wit.cfg": cfgtxt + "\nINVARIANT %s\n" % wit})
+                    if r2.violation != wit:
+                        raise vlib.MachineryError("vacuity: witness %s not reachable in %s (%s)" % (wit, base2, r2.error or r2.violation))
+                    nw += 1
+            v.cov["vacuity_witnesses_reached"] = nw
         phase("witness")
         # 2. scenarios generated by TLC from the model
         limit = 120 if tier == "quick" else 4000
